@@ -72,6 +72,13 @@ type signCase struct {
 	NoSign     bool              `json:"no_sign"` // Delivery.Sign == nil
 	Env        map[string]string `json:"env"`     // environment for env: refs
 	Redirect   string            `json:"redirect"` // if set: first response is 307 to this path (policy has redirects on)
+	Group      string            `json:"group"`    // cases of one group share one deliverer and one signing config (a route's life: many deliveries, moving clock)
+}
+
+type signGroup struct {
+	d   *dispatcher.HTTPDeliverer
+	sc  *dispatcher.HMACSigningConfig
+	now *time.Time
 }
 
 type recvOut struct {
@@ -196,14 +203,21 @@ func signRun(in []byte) (any, error) {
 	base := "http://" + ln.Addr().String()
 
 	outs := make([]signCaseOut, len(req.Cases))
+	groups := map[string]*signGroup{}
 	for i, c := range req.Cases {
 		o := signCaseOut{Received: []recvOut{}}
+		var grp *signGroup
+		if c.Group != "" {
+			grp = groups[c.Group]
+		}
 		for k, v := range c.Env {
 			_ = os.Setenv(k, v)
 		}
 		var sc *dispatcher.HMACSigningConfig
 		target := base + c.PathQuery
-		if !c.NoSign {
+		if grp != nil {
+			sc = grp.sc
+		} else if !c.NoSign {
 			if c.Via == "compile" {
 				var errs []string
 				sc, errs = buildSignCfgCompile(c, target)
@@ -215,6 +229,8 @@ func signRun(in []byte) (any, error) {
 			} else {
 				sc = buildSignCfgStruct(c)
 			}
+		}
+		if sc != nil {
 			o.SigHeaderUse, o.TSHeaderUse = sc.SignatureHeader, sc.TimestampHeader
 			ref, serr := dispatcher.VerifC17SelectRef(sc, c.Now.Time())
 			o.SelRef = ref
@@ -229,9 +245,18 @@ func signRun(in []byte) (any, error) {
 		rec.got = nil
 		rec.redirect = c.Redirect
 		rec.mu.Unlock()
-		d := dispatcher.NewHTTPDeliverer(&http.Client{}, dispatcher.EgressPolicy{HTTPSOnly: false, DNSRebindProtection: false, Redirects: c.Redirect != ""})
-		now := c.Now.Time()
-		d.Now = func() time.Time { return now }
+		var d *dispatcher.HTTPDeliverer
+		if grp != nil {
+			d = grp.d
+			*grp.now = c.Now.Time()
+		} else {
+			d = dispatcher.NewHTTPDeliverer(&http.Client{}, dispatcher.EgressPolicy{HTTPSOnly: false, DNSRebindProtection: false, Redirects: c.Redirect != ""})
+			now := c.Now.Time()
+			d.Now = func() time.Time { return now }
+			if c.Group != "" {
+				groups[c.Group] = &signGroup{d: d, sc: sc, now: &now}
+			}
+		}
 		body, err := hex.DecodeString(c.BodyHex)
 		if err != nil {
 			return nil, err
